@@ -99,6 +99,10 @@ func runDistrCase(t *rapid.T, cfg DCfg, inflows []distrInflow, blocks int, check
 	return fractional, r
 }
 
+// lockedSourceUnlocked: the block time of the running case is past the end of the locked vesting
+// account's schedule (C14 moves the clock there), its coins can be swept from then on.
+var lockedSourceUnlocked bool
+
 // naturalFaults: transfers that fail without any injection — a base destination that is a
 // blocked module address cannot receive; a vesting account whose balance is locked cannot be swept.
 func naturalFaults(kind string, a DAcc) bool {
@@ -108,7 +112,7 @@ func naturalFaults(kind string, a DAcc) bool {
 	if kind == "pay" && moduleNameByAddr[a.Id] != "" && a.Id != ModuleAddr("gov").String() {
 		return true
 	}
-	if kind == "sweep" && a.Id == LockedVestingAddr().String() {
+	if kind == "sweep" && a.Id == LockedVestingAddr().String() && !lockedSourceUnlocked {
 		return true
 	}
 	return false
